@@ -22,9 +22,13 @@ QUICK = [("exprfull", "G_exprfull.cfg", 2, 150), ("expr3", "G_expr3.cfg", 1, 300
          ("bind", "G_bind.cfg", 2, 100), ("bind3", "G_bind3.cfg", 1, 300), ("arrowpat", "G_arrowpat.cfg", 1, 200), ("asgpat", "G_asgpat.cfg", 2, 100),
          ("asgpat2", "G_asgpat2.cfg", 2, 100), ("class", "G_class.cfg", 2, 100), ("classbody", "G_classbody.cfg", 2, 100),
          ("classasi", "G_classasi.cfg", 2, 20), ("forin", "G_forin.cfg", 1, 300), ("forinpat", "G_forinpat.cfg", 2, 100),
-         ("forlhs", "G_forlhs.cfg", 2, 50)]
+         ("forlhs", "G_forlhs.cfg", 2, 50),
+         ("kw", "G_kw.cfg", 1, 300), ("kwlt", "G_kwlt.cfg", 1, 300), ("kwclass", "G_kwclass.cfg", 2, 50), ("commapos", "G_commapos.cfg", 1, 100),
+         ("commafor", "G_commafor.cfg", 2, 50), ("nlsemi", "G_nlsemi.cfg", 1, 50), ("brknl", "G_brknl.cfg", 1, 100)]
 THOROUGH = [("expr4", "T_expr4.cfg", 1, 1000), ("expr3b", "T_expr3b.cfg", 1, 1000), ("stmt3", "T_stmt3.cfg", 1, 1000), ("asi4", "T_asi4.cfg", 1, 2000),
-            ("bind4", "T_bind4.cfg", 1, 500)]
+            ("bind4", "T_bind4.cfg", 1, 500),
+            ("kw2", "T_kw2.cfg", 1, 1000), ("kwlt2", "T_kwlt2.cfg", 1, 1000), ("kwclass3", "T_kwclass.cfg", 1, 500), ("commapos3", "T_commapos.cfg", 1, 1000), ("commafor3", "T_commafor.cfg", 1, 500),
+            ("nlsemi3", "T_nlsemi.cfg", 1, 500)]
 CONSTANTS = {
     "G_exprfull": "every expression with <= 2 operator nodes over the full operator vocabulary (25 binary, 16 assignment, 8 unary, ++/-- prefix and postfix, "
                   "new with/without arguments, call, optional call/member/index, member, index, tagged template, template, conditional, comma, yield, yield*, spread, arrow, async arrow, parentheses)",
@@ -41,6 +45,18 @@ CONSTANTS = {
     "G_neg": "assignment to a binary expression, lexical redeclaration pairs, parentheses whose removal gives -a**b or ?? mixed with ||/&&",
     "T_expr4": "<= 4 operator nodes over nine operators", "T_expr3b": "<= 3 operator nodes over the other representatives of each level",
     "T_stmt3": "every statement kind, <= 3 nested", "T_asi4": "ASI spellings, <= 3 statements nested", "T_bind4": "patterns with <= 4 pattern nodes",
+    "G_kw": "identifiers named async / let / of / get / set / static / await / yield as (the right edge of) an expression statement ended by ';' or a line break, before every "
+            "kind of statement start (function, async function, arrow, async arrow, let declaration with a line break after let, ++/--, block, if, label); throw + line break",
+    "G_kwlt": "one line break inside a statement: after such an identifier, a unary operator, new, get (kept tree); after async of a function expression / arrow / method and "
+              "before => (rejected where nothing else derives the text)",
+    "G_kwclass": "class members named async / get / set / static (fields ended by ';' / line break / '}', methods), get / set / static followed by a line break",
+    "G_commapos": "positions taking an AssignmentExpression: an un-parenthesised comma expression in the middle of a conditional, a computed name, a class heritage, a field "
+                  "initialiser (rejected) and behind every operand that leaves it to those; the parenthesised one, and the list contexts that re-read the comma (accepted)",
+    "G_commafor": "the same for the right-hand side of for-of / for-await (rejected) against for-in / for / while heads (Expression: accepted)",
+    "G_nlsemi": "the terminating ';' written on the next line, for every statement kind ending in ';' incl. the bodies of if-else / do-while / labels",
+    "G_brknl": "break / continue followed by a line break and an identifier (two statements) inside switch / loops / labelled statements",
+    "T_kw2": "G_kw with <= 2 operator nodes", "T_kwlt2": "G_kwlt with index / template / property brackets, postfix, typeof, async generator and block-bodied async arrow, all eight names", "T_kwclass": "G_kwclass with <= 3 members / parameters", "T_commapos": "G_commapos with <= 3 operator nodes",
+    "T_commafor": "G_commafor with <= 3 operator nodes", "T_nlsemi": "G_nlsemi, <= 3 statements nested",
     "G_sim": "-simulate: MaxE=7 MaxS=6 MaxX=6 MaxP=2 MaxL=3 MaxTop=3 over the whole vocabulary",
 }
 
@@ -120,6 +136,18 @@ def in_arrow_params(n):
 def detectors(o, evs):
     """named mechanisms (each corresponds to one way js.Parse is known to be able to go wrong); evaluated on disagreeing cases only"""
     out = []
+    ops, nl, accept = o.get("ops") or [], o.get("nl") or [], o["kind"] == "accept"
+    # full signatures (second symptoms of defects that are listed under the signature the tree check gives them)
+    if accept and "kfield:async" in ops and any(x.startswith("async|") for x in nl):
+        # class A { async <line break> me(){} }: the field async is lost / the next member is read as the name of an async method
+        out.append("jstree/yield/class-element/modifier-not-in-tree/async-newline")
+    if not accept and o.get("why") == "line-break-in-restricted-production" and "arr:" in ops and any(x.startswith("async|") for x in nl):
+        # [async <line break> x => y] is read as the two elements async and x => y: array elements without a comma between them
+        out.append("jstree/yield/arr/tree:,/async-newline")
+    if accept and any(x.endswith("|;") for x in nl):
+        out.append("jsgram/semicolon-on-next-line/" + klass(o, evs))
+    if out:
+        return out
     src = re.sub(r"/\*.*?\*/", " ", bytes(o["src"]).decode("utf-8", "replace"))
     etext = " ".join((x.get("etext") or "") for x in evs[1:])
     if re.search(r"yield\s*\}(t`|m\$\{)", src) and "unexpected }" in etext:
@@ -163,6 +191,9 @@ class Classifier:
         evs = f["trace"]
         o = evs[0]
         c = klass(o, evs)
+        det = detectors(o, evs)
+        if det and det[0].startswith(("jstree/", "jsgram/")):
+            return det[0]
         if o["kind"] != "accept":
             first = next((clean(x) for x in (o.get("ops") or []) if clean(x).split(":")[0] not in NOISE), "program")
             return "jsgram/%s@%s/%s" % (o.get("why"), first, c)
@@ -170,7 +201,6 @@ class Classifier:
         n = nl_feat(o, evs)
         if n:
             cands.append(n)
-        det = detectors(o, evs)
         if det:
             return "jsgram/%s/%s" % (det[0], c)
         pf = pair_feats(o)
@@ -326,7 +356,11 @@ def run(ck):
         "a line break is used as terminator only before tokens that cannot continue the statement (identifier/keyword/literal/!/~/++/--/{) or after return/break/continue/yield, "
         "where the restricted productions make the reading unambiguous",
         "not generated: with, import/export, optional chain as tag of a template / assignment target, 'new a?.b' (not derivable; js.Parse accepts it), "
-        "getters/setters/async as field names, string keys of methods",
+        "string keys of methods; a keyword-named identifier (async, let, of, get, set, static, await, yield) at the start of a for head, as a parameter / binding name, "
+        "as a shorthand property; await / yield as identifiers only where no async / generator function encloses them (await: inside a plain function, js.Parse reads a "
+        "top-level await as the operator); let / static / yield as identifiers not inside class bodies (strict mode code)",
+        "a line break inside a statement is put after one node per program; an un-parenthesised comma expression where the grammar takes an AssignmentExpression is "
+        "generated only where the text has no other derivation (not behind operands of argument / element / property / declarator / parameter lists)",
     ]
     import c03scope
     c03scope.run(ck, thorough)      # the programs of the scope generator (shadowing / redeclaration verdicts) under every Options value
